@@ -477,6 +477,9 @@ def main(argv=None):
         coverage["evaluations"] = b.get("evaluations", 0)
         coverage["distinct_nontrivial"] = b.get("distinct_nontrivial", 0)
         coverage["rule"] = b.get("rule", "")
+        coverage["samples"] = (list(b.get("samples", [])) + coverage["samples"])[:40]
+        if "exhaustive" in b:
+            coverage["exhaustive"] = b["exhaustive"]
     if level != "proof":
         coverage.setdefault("evaluations", paths + native_evals)
         coverage.setdefault("distinct_nontrivial", paths)
